@@ -23,7 +23,7 @@ LEVEL_NOTE = ('trusted: rninja (no ninja binary), CrossHair string/regex models 
               'invariant is assumed (C12)')
 HARNESS = 'vpx.harness.c04'
 FUNCTIONS = ['bfg9000.backends.make.syntax.Writer.escape_str', 'Writer.write (BasePath branch)',
-             'bfg9000.backends.make.writer.directory_deps', 'backends.make.writer.directory_rule', 'bfg9000.builtins.find.write_depfile', 'bfg9000.path.BasePath.realize',
+             'bfg9000.backends.make.writer.directory_deps', 'backends.make.writer.directory_rule', 'bfg9000.backends.make.syntax.Function.use / Call', 'bfg9000.builtins.find.write_depfile', 'bfg9000.path.BasePath.realize',
              'bfg9000.backends.make.syntax.Variable.use (qvar)', 'posix.inner_quote_info',
              'posix.wrap_quotes', 'bfg9000.backends.ninja.syntax.Writer.escape_str',
              'NinjaFile._write_build']
@@ -35,7 +35,7 @@ OUTSIDE = ['non-ASCII names', 'backslash in names and drive-letter forms (define
 STUBS = []
 ASSUMPTIONS = ['Path suffix representation invariant (C12)', 'rninja trusted']
 MAKE_FNS = ['mt_target', 'md_prereq', 'mo_dir_sentinel', 'mr_auto_var', 'mf_find_deps',
-            'ms_source_prereq', 'mi_include', 'mx_dir_rule']
+            'ms_source_prereq', 'mi_include', 'mx_dir_rule', 'mc_call_arg']
 NINJA_FNS = ['nt_output', 'ni_input', 'nb_build_line']
 CORPUS_ALPHA = list("a\\ :#%*]~$|;=()'&\t")
 
@@ -169,17 +169,19 @@ def obligations(tier, kf):
 
 
 MUTANTS = {'mt_target': ['make_target_no_colon'], 'md_prereq': ['make_dep_no_pipe'],
-           'mi_include': ['make_include_double_escape'],            'mf_find_deps': ['depfile_target_escape_for_prereq'],
+           'mi_include': ['make_include_double_escape'],            'mf_find_deps': ['depfile_target_escape_for_prereq'], 'mc_call_arg': ['make_function_no_comma_escape'],
            'nt_output': ['ninja_path_no_colon'], 'mr_auto_var': ['make_qvar_unquoted']}
 
 
 def classify(ob, cex):
     c = cex['args'][0]
-    if ob.fn.startswith('m') and ob.fn not in ('mr_auto_var', 'mi_include', 'ms_source_prereq', 'mx_dir_rule'):
+    if ob.fn.startswith('m') and ob.fn not in ('mr_auto_var', 'mi_include', 'ms_source_prereq', 'mx_dir_rule', 'mc_call_arg'):
         if c.startswith('~') and ob.params.get('shape') == 1:
             return 'C04-F10'
         if '[' in c:
             return 'C04-F9'
+    if ob.fn == 'mc_call_arg' and ',' in c:
+        return 'C04-F19'
     if ob.fn == 'mx_dir_rule' and ('  ' in c or c.startswith('.dir ')):
         return 'C04-F18'
     if ob.fn == 'mx_dir_rule' and "'" in c:
